@@ -1075,6 +1075,7 @@ class HttpPayloadParser:
                             set_exception(self.payload, exc)
                             raise exc
                         self._chunk_tail = chunk
+                        self._paused = False
                         return PayloadState.PAYLOAD_NEEDS_INPUT, b""
 
                 # read chunk and feed buffer
@@ -1115,6 +1116,7 @@ class HttpPayloadParser:
                     else:
                         # Keep a stripped CR: only one may precede the line ending.
                         self._chunk_tail = unstripped
+                        self._paused = False
                         return PayloadState.PAYLOAD_NEEDS_INPUT, b""
 
                 if self._chunk == ChunkState.PARSE_TRAILERS:
@@ -1127,6 +1129,7 @@ class HttpPayloadParser:
                             set_exception(self.payload, exc)
                             raise exc
                         self._chunk_tail = chunk
+                        self._paused = False
                         return PayloadState.PAYLOAD_NEEDS_INPUT, b""
 
                     line = chunk[:pos]
@@ -1172,6 +1175,7 @@ class HttpPayloadParser:
                 self._eof_pending = False
                 return PayloadState.PAYLOAD_COMPLETE, b""
 
+        self._paused = False
         return PayloadState.PAYLOAD_NEEDS_INPUT, b""
 
 
